@@ -94,7 +94,7 @@ func c04Seeds() *c04SeedSet {
 		csOpen := pbt.Open("C04", c04WitnessCS)
 		for _, b := range ss.srcs[:5] {
 			one := []*c04Built{b}
-			for c := 0; c < 9; c++ {
+			for c := 0; c < 17; c++ { // every constant of the compressed-size list, incl. the 32-bit wrap-around sizes
 				if csOpen && (c == 4 || c == 5) {
 					continue
 				}
@@ -200,7 +200,8 @@ func genC04Raw(t *rapid.T) C04Raw {
 		case 4:
 			if len(buf) >= 4 {
 				at := rapid.IntRange(0, len(buf)-4).Draw(t, "at")
-				binary.LittleEndian.PutUint32(buf[at:], rapid.SampledFrom([]uint32{0, 1, 0x7fffffff, 0x80000000, 0xffffffff, 0xffff, 0x10000}).Draw(t, "u32"))
+				binary.LittleEndian.PutUint32(buf[at:], rapid.SampledFrom([]uint32{0, 1, 0x7fffffff, 0x80000000, 0xffffffff, 0xffff, 0x10000,
+					0xfffffff0, 0xffffffef, 0xfffffff1, 0xffffffc0, uint32(0) - uint32(at), uint32(0) - uint32(at) - 16}).Draw(t, "u32"))
 			}
 		default:
 			o := rapid.SampledFrom(ss.seeds).Draw(t, "other")
